@@ -60,7 +60,7 @@ def indexDefvar (r : Rec) (n : PTree) : IxM Unit := do
   let some nameNode := Ast.defvarName n | return
   let some (name, defineLoc) ← utilsIdentifier nameNode | return
   let some value := Ast.defvarValue n | return
-  let some typ ← r.value value | return
+  let typ := (← r.value value).getD .unknown
   scopesAddVariable { name := name, typ := typ, kind := .defvar, defineLoc := defineLoc }
 
 /-- `impl Indexable for ast::Dump` -/
@@ -82,7 +82,7 @@ def indexForeachIterator (r : Rec) (n : PTree) : IxM (Option (String × Nat)) :=
   let some nameNode := Ast.foreachIteratorName n | return none
   let some (name, defineLoc) ← utilsIdentifier nameNode | return none
   let some init := Ast.foreachIteratorInit n | return none
-  let some typ ← indexForeachIteratorInit r init | return none
+  let typ := (← indexForeachIteratorInit r init).getD .unknown
   let variableId ← addVariable { name := name, typ := typ, kind := .foreach, defineLoc := defineLoc }
   return some (name, variableId)
 
@@ -540,12 +540,15 @@ def indexSimpleValue (r : Rec) (n : PTree) : IxM (Option Ty) := do
   | .ClassValue => indexClassValue r n
   | .BangOperator => Bang.indexBangOperator r n
   | .CondOperator =>
+    -- the first clause value with a known type gives the type; `unknown` if there is none
+    let mut typ : Option Ty := none
     for clause in Ast.condOperatorClauses n do
       if let some condition := Ast.condClauseCondition clause then
         let _ ← r.value condition
       if let some value := Ast.condClauseValue clause then
-        let _ ← r.value value
-    return none
+        let valueTyp ← r.value value
+        if typ.isNone then typ := valueTyp
+    return some (typ.getD .unknown)
   | _ => return none
 
 /-- `impl Indexable for ast::InnerValue` -/
